@@ -1,5 +1,5 @@
 """C13 — EnumIs predicates partition the variants; EnumTryAs returns payloads unchanged."""
-from vlib.defs import Item, Variant, Field, DISABLED
+from vlib.defs import Item, Variant, Field, DISABLED, ser, msg
 from vlib.run import Corpus
 from vlib import structs as T
 from vlib import gen as G
@@ -36,7 +36,7 @@ def build_corpus(tier, rng):
                 else:
                     v = Variant(ident, "tuple", [Field(t) for t in TYSETS[(i * 3 + rep + n) % len(TYSETS)]])
                 if (i + rep) % 4 == 3:
-                    v.metas = [DISABLED]
+                    v.metas = [[DISABLED], [ser("s%d" % i), DISABLED], [DISABLED, msg("m")]][(i + n) % 3]
                 vs.append(v)
             items.append(("shape", Item("E", vs)))
     for mask in range(16):
